@@ -19,11 +19,12 @@ Definition op_prio (e : Z * bool * option (Z -> Z -> result Z)) : Z := fst (fst 
 Definition op_rassoc (e : Z * bool * option (Z -> Z -> result Z)) : bool := snd (fst e).
 Definition op_func (e : Z * bool * option (Z -> Z -> result Z)) := snd e.
 
-(* _binop_take *)
+(* _binop_take: the OP_MAP access is done here, the decision is the regenerated Gen.ppif.binop_take_core
+   (tie T: `op in self.OP_MAP` -> found, `self.OP_MAP[op][:2]` -> op_prio, right_associative) *)
 Definition binop_take (op : string) (priority : Z) : bool :=
   match lookup op op_map with
-  | Some e => if negb (op_rassoc e) then op_prio e >? priority else op_prio e >=? priority
-  | None => false
+  | Some e => binop_take_core true (op_prio e) (op_rassoc e) priority
+  | None => binop_take_core false 0 false priority
   end.
 
 (* parse_expression(priority): [pe] is the part before the while loop, [ploop] the loop *)
